@@ -532,13 +532,17 @@ impl FileCombiner {
             return Ok(());
         }
         self.buf.resize(start + expected_len, 0);
-        let len =
-            from_file
-                .read(&mut self.buf[start..])
-                .map_err(|source| Error::ReadSourceFile {
+        let len = match from_file.read(&mut self.buf[start..]) {
+            Ok(len) => len,
+            Err(source) => {
+                // Drop the space reserved for this file, so the buffer holds only queued files.
+                self.buf.truncate(start);
+                return Err(Error::ReadSourceFile {
                     path: entry.apath.to_string().into(),
                     source,
-                })?;
+                });
+            }
+        };
         self.buf.truncate(start + len);
         if len == 0 {
             self.stats.empty_files += 1;
